@@ -58,6 +58,9 @@ func checkDialedPeer(r *kernel.Run, where string, conn net.Conn, creds *types.No
 	if req == nil || len(req.Nonce) == 0 {
 		r.HarnessErr("%s: cannot extract the nonce from the captured ClientHello", where)
 	}
+	if nonceLooksDegenerate(req.Nonce) {
+		r.Violate("dial-peer", "connection-nonce-not-fresh", "%s: the nonce sent for this connection is %x - not %d bytes from the random source", where, req.Nonce, nodeenrollment.NonceSize)
+	}
 	want := base64.RawStdEncoding.EncodeToString(req.Nonce)
 	found := false
 	for _, n := range leaf.DNSNames {
@@ -68,6 +71,30 @@ func checkDialedPeer(r *kernel.Run, where string, conn net.Conn, creds *types.No
 	if !found {
 		r.Violate("dial-peer", "connected-without-fresh-nonce", "%s: peer certificate does not embed this connection's nonce", where)
 	}
+}
+
+// nonceLooksDegenerate: wrong length, or a tail of zero bytes that a working random source produces with probability 2^-128
+func nonceLooksDegenerate(n []byte) bool {
+	if len(n) != nodeenrollment.NonceSize {
+		return true
+	}
+	for _, b := range n[len(n)-16:] {
+		if b != 0 {
+			return false
+		}
+	}
+	return true
+}
+
+// shortReader is a legal io.Reader that delivers at most max bytes per call (an application-supplied random source such
+// as a rate-limited hardware generator); the bytes themselves are good randomness.
+type shortReader struct{ max int }
+
+func (s *shortReader) Read(p []byte) (int, error) {
+	if len(p) > s.max {
+		p = p[:s.max]
+	}
+	return rand.Read(p)
 }
 
 // nodeHasUsableChain: is some stored chain valid now and issued by a root the server currently holds (current/next, valid)?
@@ -162,6 +189,12 @@ func propC07(r *kernel.Run) {
 			if tp.Draw(2) == 0 {
 				d := tp.DurLog(time.Hour, 12*24*time.Hour)
 				r.Sleep(d)
+				if tp.Draw(4) == 0 {
+					// nobody rotates (server down, operator asleep): roots simply age
+					hist = append(hist, "sleep "+d.Round(time.Minute).String()+" without rotation")
+					r.Count("fault.clock_jump_without_rotation", 1)
+					continue
+				}
 				rotate()
 				hist = append(hist, "sleep "+d.Round(time.Minute).String()+"+rotate")
 				r.Count("ops.clock_jump_and_rotate", 1)
@@ -170,7 +203,21 @@ func propC07(r *kernel.Run) {
 			expect := nodeHasUsableChain(srv, creds)
 			addr := honestAddrs[tp.Draw(len(honestAddrs))]
 			opts, od, _ := drawHonestOpts()
+			if tp.Draw(8) == 0 {
+				// node-side fault: the application's random source delivers fewer bytes per call than asked for. The node may
+				// refuse to connect (it does: no liveness is expected then), but whatever it sends must carry a full nonce
+				sr := &shortReader{max: tp.Range(1, nodeenrollment.NonceSize-1)}
+				opts = append(opts, nodeenrollment.WithRandomReader(sr))
+				od += fmt.Sprintf(" random-source-short-reads=%d", sr.max)
+				expect = false
+				r.Count("fault.short_reads_from_random_source", 1)
+			}
 			res, acc := dial(addr, opts...)
+			if res.hello != nil {
+				if req := authRequestFromALPN(res.hello); req != nil && nonceLooksDegenerate(req.Nonce) {
+					r.Violate("dial-peer", "connection-nonce-not-fresh", "the node sent the nonce %x (%s)", req.Nonce, od)
+				}
+			}
 			desc := fmt.Sprintf("addr=%q %s nodeWrapper=%v usableChain=%v", addr, od, nodeW.SW != nil, expect)
 			hist = append(hist, desc+" -> "+shortErr(res.err))
 			r.Count("ops.honest_dial", 1)
@@ -194,6 +241,13 @@ func propC07(r *kernel.Run) {
 		}
 	case "pending":
 		flow := Pick2(tp, "operator", "operator", "token", "wrapper")
+		if tp.Draw(4) == 0 {
+			// the server's current root ages out while nobody rotates; its next root is still valid and takes over
+			d := nodeenrollment.DefaultCertificateLifetime + time.Duration(tp.Range(1, 6*24))*time.Hour
+			r.Sleep(d)
+			hist = append(hist, "sleep "+d.String()+" without rotation")
+			r.Count("fault.clock_jump_without_rotation", 1)
+		}
 		var dopts []nodeenrollment.Option
 		var nopts []nodeenrollment.Option
 		switch flow {
